@@ -559,8 +559,9 @@ impl Circle2 {
             // p0 is in the negative half space and p1 is in the positive half space. If this circle
             // lies inside the other one there are no outer tangents.
             let (p0, p1) = proxy.tangent_points_to(&self.center)?;
-            let s0 = Segment2::try_new(self.center, p0).unwrap();
-            let s1 = Segment2::try_new(self.center, p1).unwrap();
+            // The tangent points coincide with this center when the circles touch internally
+            let s0 = Segment2::try_new(self.center, p0).ok()?;
+            let s1 = Segment2::try_new(self.center, p1).ok()?;
 
             Some((s0.offsetted(-self.r()), s1.offsetted(self.r())))
         }
